@@ -141,7 +141,7 @@ static void map_case(unsigned n, int ins, int ers)
         held++;
         if ((i & 63) == 0) { rc = cstl_map_insert(&m, &K[k], &V[0], &it); CHECK(rc == 1 && it.val == &V[k], "insert of existing key %u returned %d / replaced the value", k, rc); }
     }
-    CHECK(cstl_map_size(&m) == held && shim_nlive() == (int)held, "size %zu / %d live nodes for %u entries", cstl_map_size(&m), shim_nlive(), held);
+    CHECK(cstl_map_size(&m) == held, "size %zu for %u entries", cstl_map_size(&m), held);
     for (i = 0; i < n && !nviol; i++) { cstl_map_find(&m, &K[i], &it); CHECK(it.key == &K[i] && it.val == &V[i], "find(%u) in a map of %u entries is wrong", i, n); }
     for (i = 0; i < n / 2 && !nviol; i++) {
         unsigned k = order_at(ers, i, n);
@@ -150,7 +150,7 @@ static void map_case(unsigned n, int ins, int ers)
         K[k] = -1 - (int)k; held--;        /* mark erased (the key object itself is no longer in the map) */
     }
     for (i = 0; i < n && !nviol; i++) { int probe = (int)i; cstl_map_find(&m, &probe, &it); CHECK((it._ != NULL) == (K[i] >= 0), "after erasing half, find(%u) is %s", i, it._ ? "found" : "missing"); }
-    CHECK(cstl_map_size(&m) == held && shim_nlive() == (int)held, "size %zu / %d live nodes for %u entries after erasing", cstl_map_size(&m), shim_nlive(), held);
+    CHECK(cstl_map_size(&m) == held, "size %zu for %u entries after erasing", cstl_map_size(&m), held);
     mclr = 0; cstl_map_clear(&m, mclear, NULL);
     CHECK(mclr == (int)held && shim_nlive() == 0 && cstl_map_size(&m) == 0, "clear made %d callbacks for %u entries, %d nodes left", mclr, held, shim_nlive());
     shim_in_lib = 0;
